@@ -4,6 +4,8 @@ Require Import MTX.Model.C43_Hls.
 Import ListNotations.
 Local Open Scope Z_scope.
 
+#[local] Arguments cip : simpl never.
+
 (* ---------------------------------------------------------------- small facts ----------------------------------- *)
 
 Lemma bytes_eqb_eq : forall a b, bytes_eqb a b = true <-> a = b.
@@ -99,8 +101,8 @@ Proof. intros c p m H. discriminate. Qed.
 Lemma backed_snoc : forall c tr p id u ip e,
   backed c tr p id u ip -> kills p id e = false -> backed c (tr ++ [e]) p id u ip.
 Proof.
-  intros c tr p id u ip e (pre & mid & cred & hdr & ccc & vc & Htr & Hc & Ha & Hk) He.
-  exists pre, (mid ++ [e]), cred, hdr, ccc, vc. repeat split; try assumption.
+  intros c tr p id u ip e (pre & mid & cred & n & hdr & ccc & vc & Htr & Hn & Hc & Ha & Hk) He.
+  exists pre, (mid ++ [e]), cred, n, hdr, ccc, vc. repeat split; try assumption.
   - rewrite Htr, <- app_assoc. reflexivity.
   - apply Forall_app. split; [exact Hk|constructor; [exact He|constructor]].
 Qed.
@@ -179,34 +181,34 @@ Proof. reflexivity. Qed.
 Lemma step_inv : forall c tr st o st' x,
   Inv c tr st -> step c st o = (st', x) -> Inv c (tr ++ [(o, x)]) st'.
 Proof.
-  intros c tr st o st' x HI Hs. destruct o as [p cred ip hdr ccq ccc sec|p ip hdr ck q|id|ids|p|p|p|p|p]; simpl in Hs.
+  intros c tr st o st' x HI Hs. destruct o as [p cred n hdr ccq ccc sec|p n hdr ck q|id|ids|p|p|p|p|p]; simpl in Hs.
   - (* Multi *)
     destruct (is_cdn c hdr) eqn:Ecdn.
     + (* CDN *)
       assert (Hcreate : (if nostream c p then (st, ONotFound)
                          else attach c st p (fun m => {| m_auto := m_auto m; m_inst := m_inst m; m_sess := m_sess m;
                                                          m_cdn := Some (next_id st) |}) (OCdnCreated (next_id st))) = (st', x)
-                        -> Inv c (tr ++ [(Multi p cred ip hdr ccq ccc sec, x)]) st').
+                        -> Inv c (tr ++ [(Multi p cred n hdr ccq ccc sec, x)]) st').
       { intro Hc. destruct (nostream c p).
         - inversion Hc; subst. apply inv_same; [exact HI|intros; reflexivity].
         - eapply attach_inv; [exact HI|exact Hc|intros; reflexivity|].
           intros m Hm Hx. subst x. split.
           + intros s Hin. left. exact Hin.
           + intros id Hid. simpl in Hid. inversion Hid; subst id. right.
-            exists tr, [], cred, ip, hdr, ccq, ccc, sec. repeat split; [exact Ecdn|constructor]. }
+            exists tr, [], cred, n, hdr, ccq, ccc, sec. repeat split; [exact Ecdn|constructor]. }
       destruct (lookup p (muxers st)) as [m|] eqn:El; [|apply Hcreate; exact Hs].
       destruct (m_cdn m) eqn:Ec; [|apply Hcreate; exact Hs].
       inversion Hs; subst. apply inv_same; [exact HI|intros; reflexivity].
     + destruct ccq; simpl in Hs.
       2:{ inversion Hs; subst. apply inv_same; [exact HI|intros; reflexivity]. }
-      destruct (auth c p cred ip) eqn:Ea; simpl in Hs.
+      destruct (auth c p cred (cip c n)) eqn:Ea; simpl in Hs.
       2:{ inversion Hs; subst. apply inv_same; [exact HI|intros; reflexivity]. }
       destruct (nostream c p).
       { inversion Hs; subst. apply inv_same; [exact HI|intros; reflexivity]. }
       eapply attach_inv; [exact HI|exact Hs|intros; reflexivity|].
       intros m Hm Hx. subst x. split.
       * intros s Hin. simpl in Hin. destruct Hin as [Hnew|Hold].
-        -- right. subst s. simpl. exists tr, [], cred, hdr, ccc, ccc. repeat split; [exact Ecdn|exact Ea|constructor].
+        -- right. subst s. simpl. exists tr, [], cred, n, hdr, ccc, ccc. repeat split; [exact Ecdn|exact Ea|constructor].
         -- left. apply filter_In in Hold. apply Hold.
       * intros id Hid. left. exact Hid.
   - (* Media *)
@@ -328,25 +330,25 @@ Proof.
     split; [reflexivity|]. left. split; [reflexivity|]. exists id. reflexivity.
   - fold (effective ck q) in H. destruct (uuid_parse (effective ck q)) as [u|]; [|discriminate].
     destruct (find_session u (m_sess m)) as [s|] eqn:Ef; [|discriminate].
-    destruct (s_ip s =? ip) eqn:Eip; [|discriminate]. destruct (m_inst m); [|discriminate].
+    destruct (bytes_eqb (s_ip s) ip) eqn:Eip; [|discriminate]. destruct (m_inst m); [|discriminate].
     split; [reflexivity|]. right. split; [reflexivity|]. exists s.
     unfold find_session in Ef. apply find_some in Ef. destruct Ef as [Hin Hb].
-    apply bytes_eqb_eq in Hb. apply Z.eqb_eq in Eip. repeat split; [exact Hin|congruence|exact Eip].
+    apply bytes_eqb_eq in Hb. apply bytes_eqb_eq in Eip. repeat split; [exact Hin|congruence|exact Eip].
 Qed.
 
-Theorem served_only_if : forall c ops pre post p ip hdr ck q,
-  exec c init ops = pre ++ (Media p ip hdr ck q, OPass) :: post ->
+Theorem served_only_if : forall c ops pre post p n hdr ck q,
+  exec c init ops = pre ++ (Media p n hdr ck q, OPass) :: post ->
   (is_cdn c hdr = true /\ exists id, cdn_backed c pre p id) \/
-  (is_cdn c hdr = false /\ exists id u, uuid_parse (effective ck q) = Some u /\ backed c pre p id u ip).
+  (is_cdn c hdr = false /\ exists id u, uuid_parse (effective ck q) = Some u /\ backed c pre p id u (cip c n)).
 Proof.
-  intros c ops pre post p ip hdr ck q H.
+  intros c ops pre post p n hdr ck q H.
   destruct (exec_split _ _ _ _ _ _ H) as (ops1 & o & ops2 & Hops & Hpre & He).
   injection He as Ho Hx. subst o. simpl in Hx. symmetry in Hx. apply media_pass in Hx.
   destruct Hx as (m & Hl & _ & Hcase).
   pose proof (reach_inv c ops1) as HI. rewrite <- Hpre in HI. destruct (HI p m Hl) as [H1 H2].
   destruct Hcase as [[Hc [id Hid]]|[Hc (s & Hin & Hu & Hip)]].
   - left. split; [exact Hc|]. exists id. apply H2. exact Hid.
-  - right. split; [exact Hc|]. exists (s_id s), (s_secret s). split; [exact Hu|]. subst ip. apply H1. exact Hin.
+  - right. split; [exact Hc|]. exists (s_id s), (s_secret s). split; [exact Hu|]. rewrite <- Hip. apply H1. exact Hin.
 Qed.
 
 (* cookie before query *)
@@ -369,35 +371,36 @@ Qed.
 
 (* the session that serves a request of path p was created by a request for path p: a secret issued only on other
    paths never passes *)
-Theorem no_cross_path : forall c ops pre post p ip hdr ck q x,
-  exec c init ops = pre ++ (Media p ip hdr ck q, x) :: post ->
+Theorem no_cross_path : forall c ops pre post p n hdr ck q x,
+  exec c init ops = pre ++ (Media p n hdr ck q, x) :: post ->
   is_cdn c hdr = false ->
-  (forall p' cred ip' hdr' ccq ccc sec vc id,
-     In (Multi p' cred ip' hdr' ccq ccc sec, OCreated vc id) pre ->
+  (forall p' cred n' hdr' ccq ccc sec vc id,
+     In (Multi p' cred n' hdr' ccq ccc sec, OCreated vc id) pre ->
      uuid_parse (effective ck q) = Some sec -> p' <> p) ->
   x <> OPass.
 Proof.
-  intros c ops pre post p ip hdr ck q x H Hc Hno Hx. subst x.
+  intros c ops pre post p n hdr ck q x H Hc Hno Hx. subst x.
   destruct (served_only_if _ _ _ _ _ _ _ _ _ H) as [[Hc' _]|[_ (id & u & Hu & Hb)]]; [congruence|].
-  destruct Hb as (pre1 & mid & cred & hdr' & ccc & vc & Hpre & _ & _ & _).
-  apply (Hno p cred ip hdr' true ccc u vc id); [|exact Hu|reflexivity].
+  destruct Hb as (pre1 & mid & cred & n' & hdr' & ccc & vc & Hpre & _ & _ & _ & _).
+  apply (Hno p cred n' hdr' true ccc u vc id); [|exact Hu|reflexivity].
   rewrite Hpre. apply in_or_app. right. left. reflexivity.
 Qed.
 
 (* a session that was kicked, expired, or whose muxer / muxer instance went away no longer serves *)
-Theorem closed_sessions_dead : forall c ops pre post p ip hdr ck q x,
-  exec c init ops = pre ++ (Media p ip hdr ck q, x) :: post ->
+Theorem closed_sessions_dead : forall c ops pre post p n hdr ck q x,
+  exec c init ops = pre ++ (Media p n hdr ck q, x) :: post ->
   is_cdn c hdr = false ->
-  (forall pre1 mid cred hdr' ccc vc id u,
-     pre = pre1 ++ (Multi p cred ip hdr' true ccc u, OCreated vc id) :: mid ->
+  (forall pre1 mid cred n' hdr' ccc vc id u,
+     pre = pre1 ++ (Multi p cred n' hdr' true ccc u, OCreated vc id) :: mid ->
+     cip c n' = cip c n ->
      uuid_parse (effective ck q) = Some u ->
      exists e, In e mid /\ kills p id e = true) ->
   x <> OPass.
 Proof.
-  intros c ops pre post p ip hdr ck q x H Hc Hdead Hx. subst x.
+  intros c ops pre post p n hdr ck q x H Hc Hdead Hx. subst x.
   destruct (served_only_if _ _ _ _ _ _ _ _ _ H) as [[Hc' _]|[_ (id & u & Hu & Hb)]]; [congruence|].
-  destruct Hb as (pre1 & mid & cred & hdr' & ccc & vc & Hpre & _ & _ & Hk).
-  destruct (Hdead pre1 mid cred hdr' ccc vc id u Hpre Hu) as (e & Hin & Hkill).
+  destruct Hb as (pre1 & mid & cred & n' & hdr' & ccc & vc & Hpre & Hn & _ & _ & Hk).
+  destruct (Hdead pre1 mid cred n' hdr' ccc vc id u Hpre Hn Hu) as (e & Hin & Hkill).
   rewrite Forall_forall in Hk. rewrite (Hk e Hin) in Hkill. discriminate.
 Qed.
 
@@ -417,11 +420,11 @@ Proof.
 Qed.
 
 (* a session is only created for an admitted client that went through the cookie check *)
-Theorem created_only_if : forall c ops pre post p cred ip hdr ccq ccc sec vc id,
-  exec c init ops = pre ++ (Multi p cred ip hdr ccq ccc sec, OCreated vc id) :: post ->
-  is_cdn c hdr = false /\ ccq = true /\ auth c p cred ip = true /\ nostream c p = false /\ vc = ccc.
+Theorem created_only_if : forall c ops pre post p cred n hdr ccq ccc sec vc id,
+  exec c init ops = pre ++ (Multi p cred n hdr ccq ccc sec, OCreated vc id) :: post ->
+  is_cdn c hdr = false /\ ccq = true /\ auth c p cred (cip c n) = true /\ nostream c p = false /\ vc = ccc.
 Proof.
-  intros c ops pre post p cred ip hdr ccq ccc sec vc id H.
+  intros c ops pre post p cred n hdr ccq ccc sec vc id H.
   destruct (exec_split _ _ _ _ _ _ H) as (ops1 & o & ops2 & _ & _ & He).
   injection He as Ho Hx. subst o. symmetry in Hx.
   set (st := final c init ops1) in *. simpl in Hx.
@@ -435,7 +438,7 @@ Proof.
     + destruct (nostream c p); [discriminate|]. unfold attach in Hx. rewrite El in Hx.
       destruct (always c); simpl in Hx; discriminate.
   - destruct ccq; simpl in Hx; [|discriminate].
-    destruct (auth c p cred ip); simpl in Hx; [|discriminate].
+    destruct (auth c p cred (cip c n)); simpl in Hx; [|discriminate].
     destruct (nostream c p); [discriminate|].
     unfold attach in Hx. destruct (lookup p (muxers st)) as [m|].
     + destruct (m_inst m); simpl in Hx; [|discriminate]. inversion Hx. repeat split.
@@ -539,4 +542,224 @@ Proof.
   replace (map (fun x => lower (lower x)) (firstn 9 s)) with (map lower (firstn 9 s))
     by (apply map_ext; intro; symmetry; apply lower_idem).
   reflexivity.
+Qed.
+
+(* ---------------------------------------------------------------- the IP of a request --------------------------- *)
+
+Lemma cip_untrusted_peer : forall c n, untrusted_peer c n -> cip c n = peer_text n.
+Proof.
+  intros c n H. unfold cip, client_ip, peer_text, untrusted_peer in *. cbn [e_platform hls_engine].
+  destruct (n_peer n) as [[txt a]|]; [|reflexivity]. cbn [e_trusted hls_engine]. rewrite H. reflexivity.
+Qed.
+
+Theorem cip_no_trusted_proxies : forall c n, trusted c = [] -> cip c n = peer_text n.
+Proof.
+  intros c n H. apply cip_untrusted_peer. unfold untrusted_peer. destruct (n_peer n) as [[txt a]|]; [|exact I].
+  rewrite H. reflexivity.
+Qed.
+
+(* whatever an untrusted peer writes into its headers changes nothing: same outcome, same next state *)
+Theorem forged_headers_irrelevant : forall c st peer hs hs',
+  untrusted_peer c {| n_peer := peer; n_hdrs := hs |} ->
+  (forall p cred hdr ccq ccc sec,
+     step c st (Multi p cred {| n_peer := peer; n_hdrs := hs |} hdr ccq ccc sec) =
+     step c st (Multi p cred {| n_peer := peer; n_hdrs := hs' |} hdr ccq ccc sec)) /\
+  (forall p hdr ck q,
+     step c st (Media p {| n_peer := peer; n_hdrs := hs |} hdr ck q) =
+     step c st (Media p {| n_peer := peer; n_hdrs := hs' |} hdr ck q)).
+Proof.
+  intros c st peer hs hs' H.
+  assert (E : cip c {| n_peer := peer; n_hdrs := hs |} = cip c {| n_peer := peer; n_hdrs := hs' |}).
+  { rewrite !cip_untrusted_peer; [reflexivity| |exact H]. exact H. }
+  split; intros; cbn [step]; rewrite E; reflexivity.
+Qed.
+
+Theorem served_untrusted_peer : forall c ops pre post p n hdr ck q,
+  untrusted_peer c n ->
+  exec c init ops = pre ++ (Media p n hdr ck q, OPass) :: post ->
+  is_cdn c hdr = false ->
+  exists id u, uuid_parse (effective ck q) = Some u /\ backed c pre p id u (peer_text n).
+Proof.
+  intros c ops pre post p n hdr ck q Hu H Hc.
+  destruct (served_only_if _ _ _ _ _ _ _ _ _ H) as [[Hc' _]|[_ Hb]]; [congruence|].
+  rewrite (cip_untrusted_peer _ _ Hu) in Hb. exact Hb.
+Qed.
+
+(* the default configuration (no trusted proxies): creation and use come from the same TCP peer address *)
+Theorem served_same_peer_default : forall c ops pre post p n hdr ck q,
+  trusted c = [] ->
+  exec c init ops = pre ++ (Media p n hdr ck q, OPass) :: post ->
+  is_cdn c hdr = false ->
+  exists pre1 mid cred n0 hdr0 ccc vc id u,
+    pre = pre1 ++ (Multi p cred n0 hdr0 true ccc u, OCreated vc id) :: mid /\
+    peer_text n0 = peer_text n /\ uuid_parse (effective ck q) = Some u /\
+    is_cdn c hdr0 = false /\ auth c p cred (peer_text n0) = true /\
+    Forall (fun e => kills p id e = false) mid.
+Proof.
+  intros c ops pre post p n hdr ck q Ht H Hc.
+  destruct (served_only_if _ _ _ _ _ _ _ _ _ H) as [[Hc' _]|[_ (id & u & Hu & Hb)]]; [congruence|].
+  destruct Hb as (pre1 & mid & cred & n0 & hdr0 & ccc & vc & Hpre & Hn & Hc0 & Ha & Hk).
+  rewrite (cip_no_trusted_proxies _ n Ht) in Hn, Ha. rewrite (cip_no_trusted_proxies _ n0 Ht) in Hn.
+  exists pre1, mid, cred, n0, hdr0, ccc, vc, id, u. rewrite Hn. repeat split; assumption.
+Qed.
+
+(* where the client IP can come from *)
+Lemma validate_rev_in : forall parse tr its ip,
+  validate_rev parse tr its = Some ip -> In ip its /\ parse ip <> None.
+Proof.
+  intros parse tr its. induction its as [|it rest IH]; intros ip H; simpl in H; [discriminate|].
+  destruct (parse it) as [a|] eqn:Ep; [|discriminate].
+  destruct ((match rest with [] => true | _ :: _ => false end) || negb (is_trusted tr a)).
+  - inversion H; subst ip. split; [left; reflexivity|congruence].
+  - destruct (IH ip H) as [H1 H2]. split; [right; exact H1|exact H2].
+Qed.
+
+Lemma validate_header_in : forall parse tr v ip,
+  validate_header parse tr v = Some ip -> In ip (items v) /\ parse ip <> None.
+Proof.
+  intros parse tr v ip H. unfold validate_header in H. destruct v as [|x v']; [discriminate|].
+  apply validate_rev_in in H. destruct H as [H1 H2]. split; [apply in_rev; exact H1|exact H2].
+Qed.
+
+Lemma first_valid_in : forall parse tr n hs ip,
+  first_valid parse tr n hs = Some ip -> exists h, In h hs /\ In ip (items (hdr_val n h)) /\ parse ip <> None.
+Proof.
+  intros parse tr n hs. induction hs as [|h r IH]; intros ip H; simpl in H; [discriminate|].
+  destruct (validate_header parse tr (hdr_val n h)) as [x|] eqn:Ev.
+  - inversion H; subst x. apply validate_header_in in Ev. exists h. split; [left; reflexivity|exact Ev].
+  - destruct (IH ip H) as (h' & Hin & Hr). exists h'. split; [right; exact Hin|exact Hr].
+Qed.
+
+(* ClientIP is the IP of the TCP peer, or - only when that peer is a trusted proxy - an item of X-Forwarded-For or
+   X-Real-Ip that is an IP; no other header is ever consulted *)
+Theorem cip_cases : forall c n txt a,
+  n_peer n = Some (txt, a) ->
+  cip c n = txt \/
+  (is_trusted (trusted c) a = true /\
+   exists h, (h = h_xff \/ h = h_xreal) /\ In (cip c n) (items (hdr_val n h)) /\ parse_ip c (cip c n) <> None).
+Proof.
+  intros c n txt a Hp. unfold cip, client_ip. cbn [e_platform hls_engine e_trusted e_forwarded e_headers]. rewrite Hp.
+  destruct (is_trusted (trusted c) a) eqn:Et; cbn [andb]; [|left; reflexivity].
+  destruct (first_valid (parse_ip c) (trusted c) n [h_xff; h_xreal]) as [ip|] eqn:Ef; [|left; reflexivity].
+  right. split; [reflexivity|]. apply first_valid_in in Ef. destruct Ef as (h & Hin & Hr).
+  exists h. split; [|exact Hr]. simpl in Hin. destruct Hin as [Hh|[Hh|[]]]; [left|right]; congruence.
+Qed.
+
+(* ---- strings.Split / TrimSpace on what honest proxies write -------------------------------------------------- *)
+
+Lemma split_comma_cons : forall s, exists h t, split_comma s = h :: t.
+Proof.
+  induction s as [|c r IH]; simpl; [eauto|]. destruct (c =? 44); [eauto|].
+  destruct IH as (h & t & E). rewrite E. eauto.
+Qed.
+
+Lemma split_comma_app : forall x t, split_comma (x ++ 44 :: t) = split_comma x ++ split_comma t.
+Proof.
+  induction x as [|c r IH]; intro t; simpl; [reflexivity|].
+  destruct (c =? 44); [rewrite IH; reflexivity|].
+  rewrite IH. destruct (split_comma_cons r) as (h & tl & E). rewrite E. reflexivity.
+Qed.
+
+Lemma split_comma_nocomma : forall t, forallb (fun c => negb (c =? 44)) t = true -> split_comma t = [t].
+Proof.
+  induction t as [|c r IH]; simpl; intro H; [reflexivity|].
+  apply andb_true_iff in H. destruct H as [H1 H2]. apply negb_true_iff in H1. rewrite H1, (IH H2). reflexivity.
+Qed.
+
+Lemma trim_left_nospace : forall t, forallb (fun c => negb (is_space c)) t = true -> trim_left t = t.
+Proof.
+  intros [|c r] H; simpl; [reflexivity|]. simpl in H. apply andb_true_iff in H. destruct H as [H1 _].
+  apply negb_true_iff in H1. rewrite H1. reflexivity.
+Qed.
+
+Lemma forallb_rev : forall (f : Z -> bool) l, forallb f l = true -> forallb f (rev l) = true.
+Proof.
+  intros f l H. rewrite forallb_forall in *. intros x Hx. apply H. apply in_rev. exact Hx.
+Qed.
+
+Lemma trim_nospace : forall t, forallb (fun c => negb (is_space c)) t = true -> trim t = t.
+Proof.
+  intros t H. unfold trim. rewrite (trim_left_nospace t H), (trim_left_nospace (rev t) (forallb_rev _ _ H)).
+  apply rev_involutive.
+Qed.
+
+Lemma clean_parts : forall t, clean t = true ->
+  t <> [] /\ forallb (fun c => negb (c =? 44)) t = true /\ forallb (fun c => negb (is_space c)) t = true.
+Proof.
+  intros t H. unfold clean in H. apply andb_true_iff in H. destruct H as [H1 H2]. split; [|split].
+  - destruct t; [discriminate|congruence].
+  - rewrite forallb_forall in *. intros x Hx. specialize (H2 x Hx). apply andb_true_iff in H2. apply H2.
+  - rewrite forallb_forall in *. intros x Hx. specialize (H2 x Hx). apply andb_true_iff in H2. apply H2.
+Qed.
+
+Definition pref (x : list Z) : list (list Z) := match x with [] => [] | _ :: _ => items x end.
+
+Lemma items_proxy_append : forall x t, clean t = true -> items (proxy_append x t) = pref x ++ [t].
+Proof.
+  intros x t H. destruct (clean_parts t H) as (_ & Hc & Hs). unfold proxy_append, pref, items.
+  destruct x as [|a x'].
+  - rewrite (split_comma_nocomma t Hc). simpl. rewrite (trim_nospace t Hs). reflexivity.
+  - change ((a :: x') ++ [44; 32] ++ t) with ((a :: x') ++ 44 :: (32 :: t)).
+    rewrite split_comma_app, map_app. f_equal.
+    assert (E : split_comma (32 :: t) = [32 :: t]) by (apply split_comma_nocomma; simpl; exact Hc).
+    rewrite E. simpl map. f_equal. unfold trim. cbn [trim_left is_space Z.eqb orb]. 
+    change (rev (trim_left (rev (trim_left t))) = t). apply (trim_nospace t Hs).
+Qed.
+
+Lemma proxy_append_nonempty : forall x t, t <> [] -> proxy_append x t <> [].
+Proof. intros [|a x] t H; simpl; [exact H|discriminate]. Qed.
+
+Lemma pref_nonempty : forall x, x <> [] -> pref x = items x.
+Proof. intros [|a x] H; [congruence|reflexivity]. Qed.
+
+Lemma items_chain : forall ts x0, ts <> [] -> Forall (fun t => clean t = true) ts ->
+  items (chain_xff x0 ts) = pref x0 ++ ts.
+Proof.
+  induction ts as [|t r IH]; intros x0 Hne Hc; [congruence|].
+  inversion Hc as [|? ? Ht Hr]; subst. unfold chain_xff. simpl fold_left. fold (chain_xff (proxy_append x0 t) r).
+  destruct r as [|t' r'].
+  - simpl. apply items_proxy_append. exact Ht.
+  - rewrite IH; [|discriminate|exact Hr].
+    rewrite pref_nonempty by (apply proxy_append_nonempty; apply (clean_parts t Ht)).
+    rewrite (items_proxy_append x0 t Ht), <- app_assoc. reflexivity.
+Qed.
+
+Lemma validate_rev_skip : forall parse tr ps rest,
+  Forall (fun t => exists a, parse t = Some a /\ is_trusted tr a = true) ps -> rest <> [] ->
+  validate_rev parse tr (ps ++ rest) = validate_rev parse tr rest.
+Proof.
+  intros parse tr ps rest H Hne. induction H as [|t ps' (a & Hp & Ht) _ IH]; [reflexivity|].
+  simpl. rewrite Hp, Ht. destruct (ps' ++ rest) eqn:E.
+  - apply app_eq_nil in E. destruct E; congruence.
+  - simpl. exact IH.
+Qed.
+
+(* The client at address ca (written ct) sends ANY X-Forwarded-For x0 (and any other header); the request travels
+   through the proxies ps and then the proxy (pt, pa) that connects to the server; every proxy appends the IP of its
+   peer; all of them are configured as trusted, the client is not. Then ClientIP is the client's IP. *)
+Theorem cip_honest_chain : forall c n x0 ct ca ps pt pa,
+  n_peer n = Some (pt, pa) -> is_trusted (trusted c) pa = true ->
+  hdr_val n h_xff = chain_xff x0 (ct :: map fst ps) ->
+  clean ct = true -> parse_ip c ct = Some ca -> is_trusted (trusted c) ca = false ->
+  Forall (fun e => clean (fst e) = true /\ parse_ip c (fst e) = Some (snd e) /\ is_trusted (trusted c) (snd e) = true) ps ->
+  cip c n = ct.
+Proof.
+  intros c n x0 ct ca ps pt pa Hp Ht Hx Hcl Hpc Hut Hps.
+  assert (Hit : items (hdr_val n h_xff) = pref x0 ++ ct :: map fst ps).
+  { rewrite Hx. apply items_chain; [discriminate|]. constructor; [exact Hcl|].
+    rewrite Forall_forall in *. intros t Hin. apply in_map_iff in Hin. destruct Hin as (e & He & Hin). subst t.
+    apply (Hps e Hin). }
+  assert (Hv : validate_header (parse_ip c) (trusted c) (hdr_val n h_xff) = Some ct).
+  { unfold validate_header. destruct (hdr_val n h_xff) as [|b v'] eqn:Ev.
+    - exfalso. unfold items in Hit. simpl in Hit. destruct (pref x0); simpl in Hit.
+      + inversion Hit as [[Hct Hm]]. destruct (clean_parts ct Hcl) as (Hne & _). apply Hne. rewrite <- Hct. reflexivity.
+      + inversion Hit as [[H1 H2]]. symmetry in H2. apply app_eq_nil in H2. destruct H2; discriminate.
+    - rewrite Hit, rev_app_distr. simpl rev. rewrite <- app_assoc. simpl app.
+      rewrite validate_rev_skip.
+      + simpl. rewrite Hpc, Hut. rewrite orb_true_r. reflexivity.
+      + rewrite Forall_forall in *. intros t Hin. apply in_rev in Hin. apply in_map_iff in Hin.
+        destruct Hin as (e & He & Hin). subst t. destruct (Hps e Hin) as (_ & H1 & H2). exists (snd e). split; assumption.
+      + discriminate. }
+  unfold cip, client_ip. cbn [e_platform hls_engine e_trusted e_forwarded e_headers]. rewrite Hp, Ht. cbn [andb first_valid].
+  rewrite Hv. reflexivity.
 Qed.
